@@ -81,6 +81,10 @@ AttackList == <<
    [AT(<<"d5", "sum">>, Aux3) EXCEPT !.hash = "rp64_256", !.ext = 2, !.queries = 4, !.blowup = 16, !.rem = 15],
    [AT(<<"cube", "mul2", "sum", "id">>, Aux2) EXCEPT !.log_len = 5, !.rem = 7, !.queries = 2, !.grind = 4],
    [AT(<<"cube", "mul2", "sum", "id">>, Aux2) EXCEPT !.log_len = 9, !.fold = 4, !.rem = 31, !.queries = 6, !.ext = 2, !.exemptions = 2],
+   \* no FRI layer at all (the LDE domain fits the remainder): the remainder is the only FRI data
+   [AT(<<"sum", "mul2", "cube">>, Aux2) EXCEPT !.log_len = 4, !.rem = 15, !.queries = 3],
+   [AT(<<"sum", "mul2", "cube">>, Aux2) EXCEPT !.log_len = 3, !.rem = 7, !.queries = 2, !.ext = 2, !.field = "f128"],
+   [AT(<<"d5", "sum">>, Aux3) EXCEPT !.log_len = 5, !.rem = 31, !.queries = 4, !.hash = "rp64_256", !.blowup = 16],
    \* partitioned row hashing: widths that are not multiples of the partition size (a short last partition)
    [AT(<<"sum", "mul2", "cube", "sum", "id">>, Aux3) EXCEPT !.parts = 2, !.hash_rate = 1],
    [AT(<<"sum", "mul2", "cube", "sum", "id">>, Aux3) EXCEPT !.parts = 3, !.hash_rate = 2, !.ext = 2],
